@@ -20,7 +20,7 @@ and a set of per-step oracles that the property modules select:
     total      C08  no exception, every number finite (rate and the three predictions)
     sigma      C06  the single-call sigma bounds on the observed step + the quadrature bound sqrt(sigma0^2 + sum tau^2) per player object
 
-Players whose rating leaves the numeric domain the properties quantify over are retired (not fed back), as in C06's league.
+A player whose rating leaves the numeric domain the properties quantify over is replaced by a new account with the seat's initial values.
 """
 from __future__ import annotations
 
@@ -49,6 +49,7 @@ class OracleLeague:
 
     def __init__(self, first, ctx):
         self.cfg = first["cfg"]
+        self.first = first
         self.ctx = ctx
         self.model, self.trip = failing.tripwire_model(self.cfg)
         self.n_failed = 0
@@ -94,6 +95,16 @@ class OracleLeague:
         beta = self.cfg["beta"]
         return isinstance(r.sigma, (int, float)) and not isinstance(r.sigma, bool) and isinstance(r.mu, (int, float)) and not isinstance(r.mu, bool) and math.isfinite(r.mu) and math.isfinite(r.sigma) \
             and 1e-4 * beta <= r.sigma <= 10 * beta and abs(r.mu) <= 20 * beta
+
+    def _reseat(self, i):
+        """player i has left the numeric domain the properties quantify over (sigma below 1e-4 beta or above 10 beta, |mu| above 20 beta): the
+        seat is taken by a new account with the seat's initial values (the old object is never passed again)"""
+        mu, sigma = self.first["players"][i]
+        self.players[i] = self.model.rating(mu, sigma, name=self.names[i])
+        self.ids[i] = self.players[i].id
+        self.bound_sq[i] = sigma * sigma
+        if "reseated" not in self.labels:
+            self.labels.append("reseated")
 
     def _synthetic_case(self, prior, call, got):
         n = len(prior)
@@ -227,7 +238,7 @@ class OracleLeague:
                     self.players[i] = inputs[a][b]
                 self.games[i] += 1
                 if not self._in_domain(self.players[i]):
-                    self.retired.add(i)
+                    self._reseat(i)
         if keep != "returned":
             self.kept_inputs += 1
         self.last = (teams_idx, res) if keep == "returned" else None
@@ -292,10 +303,7 @@ def _call(draw, h, n):
 
 
 def _lobby(draw, h, lo, hi):
-    act = h.active()
-    if len(act) < 2:
-        act = list(range(len(h.players)))
-        h.retired.clear()
+    act = h.active()  # all seats: a player leaving the domain is replaced at once (_reseat)
     order = list(draw(st.permutations(act)))
     n = draw(st.integers(min(lo, len(order)), min(hi, len(order))))
     return _partition(draw, order, n, h.MAX_SIZE)
@@ -451,7 +459,12 @@ class TwinLeague:
                 self.games[i] += 1
                 r = self.players[0][i]
                 if not (math.isfinite(r.mu) and math.isfinite(r.sigma) and 1e-4 * beta <= r.sigma <= 10 * beta and abs(r.mu) <= 20 * beta):
-                    self.retired.add(i)
+                    # left the numeric domain: the seat is taken by a new account with the seat's initial values, on both sides
+                    mu0, sg0 = self.first["players"][i]
+                    for s_ in (0, 1):
+                        self.players[s_][i] = self.models[s_].rating(mu0, sg0, name=f"p{i}")
+                    if "reseated" not in self.labels:
+                        self.labels.append("reseated")
         if sides[0][1] != sides[1][1] or sides[0][0] is not sides[1][0]:
             self.differing_presentations += 1
         if self.n_games >= 6 and max(self.games) >= 3:
@@ -464,10 +477,7 @@ def _twin_play(lo, hi):
     def rule(h):
         @st.composite
         def s(draw):
-            act = h.active()
-            if len(act) < 2:
-                act = list(range(len(h.games)))
-                h.retired.clear()
+            act = h.active()  # all seats: a player leaving the domain is replaced at once
             order = list(draw(st.permutations(act)))
             n = draw(st.integers(min(lo, len(order)), min(hi, len(order), h.MAX_TEAMS)))
             teams = _partition(draw, order, n, h.MAX_SIZE)
